@@ -1,0 +1,25 @@
+//go:build verif
+
+package tabula
+
+// Contracts for gocv (comment-only; see /verif/DESIGN.md).  No executable code.
+
+// ---- C10: page selection is a set algebra; a page outside the document is an error ----
+// pageCount below is the value returned by the reader for this document.
+//@ func (*Extractor) resolvePages results (res, err)
+//@   property C10
+//@   ensures all_pages: !err && len(e.options.pages) == 0 ==> len(res) == pageCount && forall k int :: {res[k]} 0 <= k && k < len(res) ==> res[k] == k
+//@   ensures out_of_range_is_error: !err ==> forall k int :: {e.options.pages[k]} 0 <= k && k < len(e.options.pages) ==> 1 <= e.options.pages[k] && e.options.pages[k] <= pageCount
+//@   ensures ascending_no_duplicates: !err ==> forall a int, b int :: {res[a], res[b]} 0 <= a && a < b && b < len(res) ==> res[a] < res[b]
+//@   ensures exactly_selected: !err && len(e.options.pages) > 0 ==> (forall k int :: {res[k]} 0 <= k && k < len(res) ==> exists j int :: 0 <= j && j < len(e.options.pages) && e.options.pages[j] == res[k] + 1)
+//@   ensures every_selected: !err && len(e.options.pages) > 0 ==> (forall j int :: {e.options.pages[j]} 0 <= j && j < len(e.options.pages) ==> exists k int :: 0 <= k && k < len(res) && res[k] + 1 == e.options.pages[j])
+//@   loop 0:
+//@     invariant 0 <= i && i <= pageCount && len(pageIndices) == pageCount
+//@     invariant forall k int :: {pageIndices[k]} 0 <= k && k < i ==> pageIndices[k] == k
+//@   loop 1:
+//@     invariant forall k int :: {e.options.pages[k]} 0 <= k && k < $i ==> 1 <= e.options.pages[k] && e.options.pages[k] <= pageCount
+//@     invariant forall v int :: {has(seen, v)} has(seen, v) ==> seen[v]
+//@     invariant forall v int :: {has(seen, v)} has(seen, v) <==> (exists k int :: 0 <= k && k < len(pageIndices) && pageIndices[k] == v)
+//@     invariant forall a int, b int :: {pageIndices[a], pageIndices[b]} 0 <= a && a < b && b < len(pageIndices) ==> pageIndices[a] != pageIndices[b]
+//@     invariant forall k int :: {pageIndices[k]} 0 <= k && k < len(pageIndices) ==> exists j int :: 0 <= j && j < $i && e.options.pages[j] == pageIndices[k] + 1
+//@     invariant forall j int :: {e.options.pages[j]} 0 <= j && j < $i ==> exists k int :: 0 <= k && k < len(pageIndices) && pageIndices[k] + 1 == e.options.pages[j]
